@@ -94,6 +94,15 @@ def check_partial(case, ev):
         else:
             interp[i] = puan.Bounds(a, b)
             open_box.append((a, b))
+    warmed = len(str(case["pi"])) % 2 == 1
+    if warmed:
+        # the same object has answered other questions before (a total interpretation, then an assumption on one leaf): the
+        # property speaks about every (model, interpretation) pair, whatever the object was asked earlier; the declared
+        # bounds used by the oracle were read off the fresh object above
+        total = {i: (lv[i][0] if (j + len(ids)) % 2 else lv[i][1]) for j, i in enumerate(ids)}
+        call(m.evaluate, total, what="evaluate (earlier query)")
+        call(m.assume, {ids[0]: total[ids[0]]}, what="assume (earlier query)")
+        ev.count("objects_queried_before")
     res = call(m.evaluate_propositions, dict(interp), what="evaluate_propositions")
     top = oracle.bounds_tuple(call(m.evaluate, dict(interp), what="evaluate"))
     if m.id not in res or oracle.bounds_tuple(res[m.id]) != top:
@@ -133,7 +142,7 @@ def check_partial(case, ev):
                 if any(open_box[ids.index(j)][0] != open_box[ids.index(j)][1] for j in sub):
                     const_with_open = True
                     break
-    cl = common.model_classes(spec, m) + ["completions_" + mode]
+    cl = common.model_classes(spec, m) + ["completions_" + mode] + (["object_queried_before"] if warmed else [])
     if const_with_open:
         cl.append("constant_with_open_leaf")
     if top[0] == top[1]:
@@ -155,9 +164,17 @@ def check_flags(case, ev):
     comps = oracle.compounds(m)
     flagged = False
     n_nodes = 0
+    boxes = {cid: [(int(c.bounds.lower), int(c.bounds.upper)) for c in node.propositions] for cid, node in comps.items()}
+    if len(str(spec)) % 2 == 1:
+        # flags are read after the object has evaluated a total interpretation (declared boxes were read before)
+        lv = oracle.leaves(m)
+        if lv and not any(i in lv for i in comps):
+            call(m.evaluate, {i: b[1] for i, b in lv.items()}, what="evaluate (earlier query)")
+            call(m.evaluate_propositions, {i: b[0] for i, b in lv.items()}, what="evaluate_propositions (earlier query)")
+            ev.count("objects_queried_before")
     for cid, node in comps.items():
         n_nodes += 1
-        box = [(int(c.bounds.lower), int(c.bounds.upper)) for c in node.propositions]
+        box = boxes[cid]
         sgn, val = int(node.sign), int(node.value)
         if oracle.box_size(box) <= 4000:
             it = itertools.product(*[range(lo, hi + 1) for lo, hi in box])
